@@ -27,6 +27,8 @@ Semantic checks on the real rewrite's output (pseudo-random tensors from <seed>,
   rwsem_dw2conv kh kw M <orig weights csv> <new weights csv> seed                           → ok | fail …
   rwsem_sconv H W C kh kw O sy sx <same 0/1> | W2 C2 kw2 sy2 sx2 <mode: s|v|e> et el | <orig weights csv HWIO> <new weights csv HWIO> seed
        width-folded strided convolution (`fixup_strided_conv`) against the original, every output element          → ok | fail …
+  rw_dilation kw kh dw dh                                                                   → none | ok hwW hwH scW scH kw' kh'
+  rwsem_dilation <c|d> H W C kh kw O dh dw kh' kw' hwH hwW zpW <orig weights csv> <new weights csv> seed   (SAME padding) → ok | fail …
 -/
 namespace VelaVerif.Handlers.Rewrites
 open VelaVerif VelaVerif.Handlers VelaVerif.Rewrites VelaVerif.RewriteSem VelaVerif.Requant VelaVerif.TfliteRef
@@ -300,6 +302,37 @@ def handle (toks : List String) : Option String :=
             (fun y x oc => TfliteRef.convAcc H W C ifm1 kh kw (fun ky kx ic => oa.getD (((ky * kw + kx) * C + ic) * O + oc) 0) sy sx 1 1 pt pl 3 y x)
             (fun y x oc => TfliteRef.convAcc H W2 C2 ifm2 kh kw2 (fun ky kx ic => na.getD (((ky * kw2 + kx) * C2 + ic) * O + oc) 0) sy2 sx2 1 1 pt2 pl2 3 y x)).getD "ok"
     | _, _, _, _ => "err:parse"
+  | ["rw_dilation", kw, kh, dw, dh] =>
+    some <| match parseNats [kw, kh, dw, dh] with
+    | some [kw, kh, dw, dh] =>
+      (match fixupDilation kw kh dw dh with
+       | none => "none"
+       | some o => s!"ok {o.hwW} {o.hwH} {o.scW} {o.scH} {o.kw} {o.kh}")
+    | _ => "err:parse"
+  | ["rwsem_dilation", k, h, w, c, kh, kw, o, dh, dw, kh2, kw2, hwh, hww, zpw, ow_, nw_, seed] =>
+    some <| match kind? k, parseNats [h, w, c, kh, kw, o, dh, dw, kh2, kw2, hwh, hww, seed], parseInt? zpw, csvInts ow_, csvInts nw_ with
+    | some k, some [H, W, C, kh, kw, O, dh, dw, kh2, kw2, hwh, hww, seed], some zpw, some ow_, some nw_ =>
+      let dwise := k == .depthwise
+      let ic := if dwise then 1 else C
+      if ow_.length ≠ kh * kw * (if dwise then C else C * O) ∨ nw_.length ≠ kh2 * kw2 * (if dwise then C else C * O) then "fail weight count"
+      else if (kh - 1) * dh ≠ (kh2 - 1) * hwh ∨ (kw - 1) * dw ≠ (kw2 - 1) * hww then s!"fail the dilated extent changes: {kh2}x{kw2} dilation {hwh},{hww}"
+      else
+        let ekh := (kh - 1) * dh + 1
+        let ekw := (kw - 1) * dw + 1
+        let pt := padBefore true H 1 ekh H
+        let pl := padBefore true W 1 ekw W
+        let oa := ow_.toArray; let na := nw_.toArray
+        let ifm : Nat → Nat → Nat → Int := fun y x ch => prand seed ((y * W + x) * C + ch)
+        let nout := if dwise then C else O
+        -- weights HWIO ([kh, kw, C, O]); depthwise [kh, kw, C, 1]: channel `oc` of the IFM with its own filter
+        (firstDiffPos H W nout
+          (fun y x oc =>
+            if dwise then TfliteRef.dwAcc H W (fun yy xx => ifm yy xx oc) kh kw (fun ky kx => oa.getD ((ky * kw + kx) * C + oc) 0 - zpw) 1 1 dh dw pt pl 3 y x
+            else TfliteRef.convAcc H W ic ifm kh kw (fun ky kx i => oa.getD (((ky * kw + kx) * C + i) * O + oc) 0 - zpw) 1 1 dh dw pt pl 3 y x)
+          (fun y x oc =>
+            if dwise then TfliteRef.dwAcc H W (fun yy xx => ifm yy xx oc) kh2 kw2 (fun ky kx => na.getD ((ky * kw2 + kx) * C + oc) 0 - zpw) 1 1 hwh hww pt pl 3 y x
+            else TfliteRef.convAcc H W ic ifm kh2 kw2 (fun ky kx i => na.getD (((ky * kw2 + kx) * C + i) * O + oc) 0 - zpw) 1 1 hwh hww pt pl 3 y x)).getD "ok"
+    | _, _, _, _, _ => "err:parse"
   | _ => none
 
 end VelaVerif.Handlers.Rewrites
